@@ -1,3 +1,6 @@
+pub mod c19;
+pub mod c20;
+pub mod path_geometry;
 pub mod powertrain;
 pub mod slts;
 pub mod speed_profile;
@@ -11,6 +14,7 @@ pub fn registry() -> Vec<&'static dyn Property> {
         &powertrain::C01,
         &speed_profile::C02,
         &slts::C03,
+        &path_geometry::C06,
         &train_props::C07,
         &powertrain::C08,
         &powertrain::C09,
@@ -19,5 +23,7 @@ pub fn registry() -> Vec<&'static dyn Property> {
         &train_props::C12,
         &speed_profile::C13,
         &train_props::C14,
+        &c19::C19,
+        &c20::C20,
     ]
 }
